@@ -3,7 +3,7 @@
 use crate::driver::{self, DynProp};
 use crate::p_layout::LayoutProp;
 use crate::plan::GenCfg;
-use crate::{build, exec, p_async, p_builder, p_layout, p_meta, p_misc, p_parseq, p_sched, p_world};
+use crate::{build, exec, p_async, p_builder, p_layout, p_meta, p_misc, p_parseq, p_sched, p_world, p_world_conc};
 
 pub struct Sub {
     pub p: Box<dyn DynProp>,
@@ -681,7 +681,13 @@ pub fn sched_subs_for(id: &str) -> Vec<Sub> {
             ..sub(p_parseq::C16, 20_000, 600_000)
         }],
         "C09" => vec![sub(p_world::C09, 60_000, 1_500_000)],
-        "C08" => vec![sub(p_world::C08, 60_000, 1_500_000)],
+        "C08" => vec![
+            sub(p_world::C08, 60_000, 1_500_000),
+            Sub {
+                max_lanes: 3,
+                ..sub(p_world_conc::C08Conc, 1_500, 60_000)
+            },
+        ],
         "C11" => vec![Sub {
             max_lanes: 1,
             ..sub(p_misc::C11, 300, 10_000)
